@@ -28,6 +28,11 @@ type c07Scenario struct {
 	Exchanges  int    `json:"exchanges"` // request/response pairs per bystander before and after the fault
 	Disable    bool   `json:"disable_recovery,omitempty"`
 	TLS        bool   `json:"tls,omitempty"` // the server runs with a TLS configuration; bystanders and new connections are TLS clients
+	// emfile: Outages periods of OutageMs during which accept() fails, 20 ms apart (0/0 = one period of 30 ms)
+	OutageMs int `json:"outage_ms,omitempty"`
+	Outages  int `json:"outages,omitempty"`
+	// CheckReady (C17): after the fault, Ready() == true obliges the server to accept and serve a new connection
+	CheckReady bool `json:"check_ready,omitempty"`
 }
 
 type c07Custom struct{ X int }
@@ -311,32 +316,77 @@ func c07Run(index int, raw json.RawMessage) lab.WorkerResult {
 		if err := syscall.Setrlimit(syscall.RLIMIT_NOFILE, &tight); err != nil {
 			break
 		}
-		var conns []net.Conn
-		for i := 0; i < 40; i++ {
-			c, err := net.DialTimeout("tcp", srv.Addr, time.Second)
-			if err != nil {
-				if strings.Contains(err.Error(), "too many open files") {
-					delivered = true
-				}
-				break
+		outages, outageMs := s.Outages, s.OutageMs
+		if outages <= 0 {
+			outages = 1
+		}
+		if outageMs <= 0 {
+			outageMs = 30
+			if s.Fault == "emfile-ids" {
+				outageMs = 150 // many failed accepts
 			}
-			conns = append(conns, c)
 		}
-		if s.Fault == "emfile-ids" {
-			time.Sleep(120 * time.Millisecond) // many failed accepts
+		for o := 0; o < outages; o++ {
+			if o > 0 {
+				if err := syscall.Setrlimit(syscall.RLIMIT_NOFILE, &tight); err != nil {
+					break
+				}
+			}
+			var conns []net.Conn
+			for i := 0; i < 40; i++ {
+				c, err := net.DialTimeout("tcp", srv.Addr, time.Second)
+				if err != nil {
+					if strings.Contains(err.Error(), "too many open files") {
+						delivered = true
+					}
+					break
+				}
+				conns = append(conns, c)
+			}
+			time.Sleep(time.Duration(outageMs) * time.Millisecond) // accept keeps failing during this window
+			for _, c := range conns {
+				c.Close()
+			}
+			_ = syscall.Setrlimit(syscall.RLIMIT_NOFILE, &lim)
+			time.Sleep(20 * time.Millisecond)
 		}
-		time.Sleep(30 * time.Millisecond) // accept keeps failing during this window
-		for _, c := range conns {
-			c.Close()
-		}
-		_ = syscall.Setrlimit(syscall.RLIMIT_NOFILE, &lim)
-		time.Sleep(20 * time.Millisecond)
 	}
 	// ---- after the fault -------------------------------------------------------
 	served := waitExchanges(int64(s.Exchanges))
 	close(stop)
 	wg.Wait()
 	desc := fmt.Sprintf("fault=%s op=%s panic=%s after-write=%v bystanders=%d tls=%v", s.Fault, s.Op, s.PanicKind, s.AfterWrite, s.Bystanders, s.TLS)
+	if s.Outages > 0 || s.OutageMs > 0 {
+		desc += fmt.Sprintf(" outages=%dx%dms", s.Outages, s.OutageMs)
+	}
+	if s.CheckReady {
+		// C17's reading of the same scenario: Stop was not called, so Ready() == true obliges the server to
+		// accept and serve a new connection; Ready() == false obliges nothing
+		if !srv.S.Ready() {
+			return lab.WorkerResult{OK: true, Delivered: false}
+		}
+		ncl, err := dial()
+		if err != nil {
+			return fail("ready-true-but-refused:"+s.Fault, "%s: Ready() == true after the descriptor shortage but a new connection fails: %v", desc, err)
+		}
+		defer ncl.Close()
+		_ = ncl.Send(simpleReq("bind", 78).Bytes())
+		if m, err := ncl.Next(10 * time.Second); err != nil || m.ID != 78 {
+			if srv.S.Ready() {
+				extra := ""
+				if srv.RunReturned() {
+					extra = fmt.Sprintf(" (Run has returned: %v)", <-srv.RunErr)
+				}
+				return fail("ready-true-but-not-served:"+s.Fault, "%s: Ready() == true before and after the attempt, Stop never called, but a new connection is not served: %v%s", desc, err, extra)
+			}
+			return lab.WorkerResult{OK: true, Delivered: false}
+		}
+		for _, b := range bys {
+			b.cl.Close()
+		}
+		_ = srv.Stop(10 * time.Second)
+		return lab.WorkerResult{OK: true, Delivered: delivered}
+	}
 	if srv.RunReturned() {
 		err := <-srv.RunErr
 		return fail("run-returned:"+s.Fault, "%s: Server.Run returned (%v): the server stopped accepting connections", desc, err)
@@ -444,6 +494,10 @@ func c07Enumerate() []c07Scenario {
 	for _, f := range []string{"malformed", "rst-midframe", "truncated-fin", "write-to-gone", "never-reads", "emfile"} {
 		out = append(out, c07Scenario{Fault: f})
 	}
+	// descriptor shortages of different lengths and repeated ones
+	for _, o := range [][2]int{{400, 1}, {1200, 1}, {60, 12}, {10, 40}} {
+		out = append(out, c07Scenario{Fault: "emfile", OutageMs: o[0], Outages: o[1]})
+	}
 	// the same against a server with a TLS configuration, plus clients stalling in the handshake
 	for _, f := range []string{"tls-silent-client", "tls-partial-hello", "malformed", "rst-midframe", "write-to-gone", "never-reads"} {
 		out = append(out, c07Scenario{Fault: f, TLS: true})
@@ -516,7 +570,7 @@ func tailOf(s string, n int) string {
 func TestC07Enum(t *testing.T) {
 	lab.SkipIfReplayOther(t, "enum")
 	st := lab.GetStats("C07", "enum")
-	st.SetRule("complete enumeration: handler panic (string / error / nil dereference / custom value) before and after writing a response in the handler of every operation (bind, search, modify, add, delete, extended, StartTLS, unbind, default route) plus malformed frame, RST mid-frame, truncated frame + FIN, handler writing to a client that has gone, client that never reads while the handler writes 6 MB, descriptor exhaustion at accept (RLIMIT_NOFILE lowered in the child); against a TLS-configured server additionally a client that connects and stays silent or stalls inside its ClientHello; each inside verified request/response traffic of 2 bystander connections, followed by a new connection; executed in worker child processes; oracle = child survives, Run has not returned, every bystander response correct, new connection served; non-trivial = fault actually delivered while >= 1 bystander was exchanging requests; distinct by scenario")
+	st.SetRule("complete enumeration: handler panic (string / error / nil dereference / custom value) before and after writing a response in the handler of every operation (bind, search, modify, add, delete, extended, StartTLS, unbind, default route) plus malformed frame, RST mid-frame, truncated frame + FIN, handler writing to a client that has gone, client that never reads while the handler writes 6 MB, descriptor exhaustion at accept (RLIMIT_NOFILE lowered in the child; one shortage of 30 / 400 / 1200 ms, 12 of 60 ms, 40 of 10 ms); against a TLS-configured server additionally a client that connects and stays silent or stalls inside its ClientHello; each inside verified request/response traffic of 2 bystander connections, followed by a new connection; executed in worker child processes; oracle = child survives, Run has not returned, every bystander response correct, new connection served; non-trivial = fault actually delivered while >= 1 bystander was exchanging requests; distinct by scenario")
 	defer lab.FlushAll()
 	if lab.ReplayInto(t, st, "enum", c07Exec) {
 		return
@@ -541,7 +595,7 @@ func TestC07Random(t *testing.T) {
 	all := c07Enumerate()
 	lab.Prop[c07Batch]{
 		ID: "C07", Part: "random",
-		Rule: "rapid: batches of 4..10 scenarios drawn from the enumeration above with generated bystander traffic (1..4 bystander connections, 2..20 exchanges before and after the fault); same oracle",
+		Rule: "rapid: batches of 4..10 scenarios drawn from the enumeration above with generated bystander traffic (1..4 bystander connections, 2..20 exchanges before and after the fault; 1..8 descriptor shortages of 5..600 ms); same oracle",
 		Gen: func(t *rapid.T) c07Batch {
 			var b c07Batch
 			n := rapid.IntRange(4, 10).Draw(t, "n")
@@ -549,6 +603,10 @@ func TestC07Random(t *testing.T) {
 				s := all[rapid.IntRange(0, len(all)-1).Draw(t, "scenario")]
 				s.Bystanders = rapid.IntRange(1, 4).Draw(t, "bystanders")
 				s.Exchanges = rapid.IntRange(2, 20).Draw(t, "exchanges")
+				if s.Fault == "emfile" {
+					s.OutageMs = rapid.SampledFrom([]int{5, 30, 100, 250, 600}).Draw(t, "outagems")
+					s.Outages = rapid.IntRange(1, 8).Draw(t, "outages")
+				}
 				b.Scenarios = append(b.Scenarios, s)
 			}
 			return b
